@@ -11,6 +11,7 @@ def run(tier, rep):
     rep.assumptions += [
         "configurations: node pool on/off x transform result cache on/off x JS caches (program cache, VM pool, node-JSON cache) on/off/capacity-1 "
         "x compiled-xpath cache default/capacity-1 = 24, each run twice (cold, warm) over the whole corpus in one process; golden = everything off",
+        "pool history: every compact item right after transforms of another format (namespaced XML, typed JSON) with garbage collection held off, pool on vs pool off",
         "lru and sync.Pool themselves are trusted; what is checked is that the keys/reset obligations the code uses make them invisible",
     ]
     # design level: the cached evaluator equals the cache-free reference for every declaration tree (shared with C02),
@@ -38,7 +39,9 @@ def run(tier, rep):
         bad = [e for e in rj["events"] if e.get("ev") == "same" and e.get("results") != rj["events"][0].get("results")]
         cfgs = [e.get("config") for e in bad]
         item = rj["failing_event"].get("item")
-        if cfgs and all("js=off" not in c for c in cfgs):
+        if cfgs and all("right after" in c for c in cfgs):
+            key = "pool-history-visible:%s:%s" % (item, cfgs[0].split("right after ")[-1])
+        elif cfgs and all("js=off" not in c for c in cfgs):
             key = "js-caches-visible:" + str(item)
         else:
             key = "cache-visible:%s:%s" % (item, cfgs[:3])
